@@ -5,3 +5,5 @@ import TV.Properties.C15
 #print axioms TV.C15.C15_timeout_own_and_not_early
 #print axioms TV.C15.C15_callbacks_exactly_once
 #print axioms TV.C15.C15_no_goroutine_left
+#print axioms TV.C15.C15_model_passes_monitor_buffers
+#print axioms TV.C15.C15_model_passes_monitor_callbacks
